@@ -281,7 +281,19 @@ pub fn p09(a: u64, b: u64) -> u64 { let v = seq(a, b); let r = v.iter().copied()
 pub fn p10(a: u64, b: u64) -> u64 { #[derive(Debug)] enum Victim { Keyed(String), At(usize), Front } fn pick(q: &VecDeque<String>, mode: u64) -> Option<Victim> { match mode { 0 => (!q.is_empty()).then_some(Victim::Front), 1 => q.iter().position(|k| k.ends_with('9')).map(Victim::At), _ => q.iter().min().cloned().map(Victim::Keyed) } } fn evict(v: Victim, q: &mut VecDeque<String>) -> bool { match v { Victim::Front => q.pop_front().is_some(), Victim::At(i) if i < q.len() => q.remove(i).is_some(), Victim::At(_) => false, Victim::Keyed(k) => { let n = q.len(); q.retain(|x| *x != k); q.len() < n } } } let mut q = names(a, b); let done = pick(&q, a % 3).map_or(false, |v| evict(v, &mut q)); let again = loop { match pick(&q, 1) { Some(v) => { if !evict(v, &mut q) { break false; } } None => break true } }; done as u64 + again as u64 * 10 + q.len() as u64 * 100 }
 pub fn p11(a: u64, b: u64) -> u64 { fn lowest<S: PartialOrd + Copy, T>(items: &[T], ceiling: S, score: impl Fn(usize, &T) -> S) -> Option<usize> { let mut best = ceiling; let mut at = None; for (i, x) in items.iter().enumerate() { let s = score(i, x); if s < best { best = s; at = Some(i); } } at } fn same<T: PartialEq>(x: &T, y: &T) -> bool { x == y } fn smaller<T: Ord>(x: T, y: T) -> T { x.min(y) } let v = seq(a, b); let i1 = lowest(&v, u64::MAX, |_, x| *x).unwrap_or(9); let i2 = lowest(&v, f64::MAX, |i, x| *x as f64 * (i + 1) as f64).unwrap_or(9); let i3 = lowest(&v, 0u64, |_, x| *x); i1 as u64 + i2 as u64 * 10 + i3.is_none() as u64 * 100 + same(&v[0], &v[3]) as u64 * 1000 + smaller(a % 9, b % 9) * 10000 + same(&format!("k{}", a % 3), &"k1".to_string()) as u64 * 100000 }
 
+// ======================================================================== seventh batch: async shapes (polled to completion by a local executor)
+fn block_on<F: std::future::Future>(f: F) -> F::Output { let mut f = Box::pin(f); let w = std::task::Waker::noop(); let mut cx = std::task::Context::from_waker(&w); loop { if let std::task::Poll::Ready(v) = f.as_mut().poll(&mut cx) { return v; } } }
+async fn twice(x: u64) -> u64 { x * 2 }
+async fn maybe(x: u64) -> Option<u64> { if x % 3 == 0 { None } else { Some(x + 1) } }
+async fn fallible(x: u64) -> Result<u64, u64> { if x % 4 == 0 { Err(x) } else { Ok(x * 3) } }
+pub fn q01(a: u64, b: u64) -> u64 { block_on(async { let x = twice(a % 10).await; let y = async { twice(b % 10).await + 1 }.await; x + y * 100 }) }
+pub fn q02(a: u64, b: u64) -> u64 { block_on(async move { let key = format!("k{}", a % 5); let inner = async move { (key.len() as u64, maybe(b % 7).await) }; let (n, o) = inner.await; n + o.unwrap_or(50) * 10 }) }
+pub fn q03(a: u64, b: u64) -> u64 { block_on(async { let r = std::future::ready(a % 9).await; let mut total = r; for i in 0..(b % 4) { total += twice(i).await; } total }) }
+pub fn q04(a: u64, b: u64) -> u64 { async fn run(a: u64, b: u64) -> Result<u64, u64> { let x = fallible(a % 8).await?; let y = fallible(b % 8 + 1).await.unwrap_or(7); Ok(x + y) } match block_on(run(a, b)) { Ok(v) => v, Err(e) => 1000 + e } }
+pub fn q05(a: u64, b: u64) -> u64 { let cache: parking_lot::Mutex<HashMap<u64, u64>> = parking_lot::Mutex::new(HashMap::new()); let get = |k: u64| cache.lock().get(&k).copied(); let fut = async { let k = a % 6; if let Some(v) = get(k) { return v; } let v = twice(k).await; cache.lock().insert(k, v); let again = get(k).unwrap_or(0); v + again * 100 }; let r = block_on(fut); let n = cache.lock().len() as u64; r + n * 10000 }
+pub fn q06(a: u64, b: u64) -> u64 { let f = |x: u64| async move { twice(x).await + b % 3 }; block_on(async { let p = f(a % 5).await; let q = f(p).await; p + q * 100 }) }
+
 macro_rules! table4 { ($($n:literal => $f:ident),* $(,)?) => {
     pub fn run4(n: u32, a: u64, b: u64) -> Option<u64> { match n { $($n => Some($f(a, b)),)* _ => None } }
 } }
-table4! { 401 => l01, 402 => l02, 403 => l03, 404 => l04, 405 => l05, 406 => l06, 407 => l07, 408 => l08, 409 => l09, 410 => l10, 501 => n01, 502 => n02, 503 => n03, 504 => n04, 505 => n05, 506 => n06, 507 => n07, 508 => n08, 509 => n09, 510 => n10, 511 => n11, 512 => n12, 601 => p01, 602 => p02, 603 => p03, 604 => p04, 605 => p05, 606 => p06, 607 => p07, 608 => p08, 609 => p09, 610 => p10, 611 => p11 }
+table4! { 401 => l01, 402 => l02, 403 => l03, 404 => l04, 405 => l05, 406 => l06, 407 => l07, 408 => l08, 409 => l09, 410 => l10, 501 => n01, 502 => n02, 503 => n03, 504 => n04, 505 => n05, 506 => n06, 507 => n07, 508 => n08, 509 => n09, 510 => n10, 511 => n11, 512 => n12, 601 => p01, 602 => p02, 603 => p03, 604 => p04, 605 => p05, 606 => p06, 607 => p07, 608 => p08, 609 => p09, 610 => p10, 611 => p11, 701 => q01, 702 => q02, 703 => q03, 704 => q04, 705 => q05, 706 => q06 }
